@@ -161,7 +161,7 @@ def check_obligations(sess: Session, senv: SymEnv, label: str, violations: list,
             continue
         seen.add(t.id)
         # t is 'lt(0, x)' or similar: try syntactic positivity
-        if t.op == "lt" and t.args[0] is T.ZERO and pos.positive(t.args[1]):
+        if t.op == "lt" and t.args[0] is T.ZERO and (ctx.is_pos(t.args[1]) or pos.positive(t.args[1])):
             continue
         todo.append((t, why))
     ctx.obligations.clear()
@@ -216,6 +216,10 @@ def reference(oracle, circuit_desc, sc, senv, rows):
         return [refsem.eval_circuit(sc, row, senv.penv) for row in rows]
     from . import opcheck
 
+    if oracle == "one":
+        # the circuit is claimed to be identically one (partition function of a normalised model)
+        one = Val.const(1.0)
+        return [[np.asarray([one] * o.num_output_units, dtype=object) for o in sc.outputs] for _ in rows]
     return {"pipe": opcheck.pipe_oracle}[oracle](circuit_desc, sc, senv, rows)
 
 
@@ -283,6 +287,7 @@ def eval_case(
     normalized: bool = False,
     add_fold_batch: bool = True,
     oracle: str | None = None,
+    nonneg: bool = False,
 ):
     """Trace the circuit for every flag pair and batch size; compare with the reference semantics.
     If compare_flags, the (F,F) trace is additionally used as oracle for the other flag pairs."""
@@ -440,6 +445,26 @@ def eval_case(
                             sess.prove(g2, f"fold={fold},opt={opt},B={B}:out[{b},{o},{k}]=unfolded-unoptimized")
             if compare_flags and (fold, opt) == (False, False):
                 base_arr[B] = arr
+            if nonneg and (fold, opt) == flags[0]:
+                # the denoted value is non-negative for all parameter values and inputs
+                for b in range(B):
+                    for o in range(O):
+                        for k in range(K):
+                            rv = ref[b][o][k]
+                            if rv.im is not None:
+                                continue
+                            t = rv.full_re()
+                            if senv.ctx.is_pos(t):
+                                sess.obligations += 1
+                                sess.discharged += 1
+                                sess.syntactic += 1
+                                continue
+                            r = sess.prove(T.ge(t, T.ZERO), f"B={B}:value[{b},{o},{k}]>=0")
+                            if r == "cex":
+                                cex = sess.cex.pop()
+                                ov = {s_.data: v for s_, v in cex["env"].items() if s_.op == "var"}
+                                ov.update(softmax_overrides(senv.ctx, cex["env"]))
+                                res["inconclusive"].append(f"B={B}:value[{b},{o},{k}]>=0 has a solver model (candidate negative value) {list(ov.items())[:6]}")
             viol = []
             check_obligations(sess, senv, f"fold={fold},opt={opt},B={B}", viol, circuit_desc)
             for v in viol:
